@@ -274,6 +274,9 @@ def random_schema(rnd, tries=60, **kw):
         if not ref.well_founded():
             stats["not_well_founded"] += 1
             continue
+        if ref.strong_dead_ends:
+            stats["dead_end_behind_loop"] = stats.get("dead_end_behind_loop", 0) + 1
+            continue
         try:
             s = Schema(spec)
         except Exception:
